@@ -680,6 +680,9 @@ class CellsImpl(*_cells_impl_base):
 
     def on_namespace_change(self):
         self.clear_all_values(clear_input=False)
+        if not self.is_cached:
+            # Clear the values calculated through this uncached cells
+            self.model.clear_obj(self)
 
     # ----------------------------------------------------------------------
     # repr methods
